@@ -891,6 +891,11 @@ func (w *world) exec1(line string) {
 			}
 			w.cfgs[n] = c
 		} else {
+			if len(opts) > 1 {
+				// a Config built from the common PREFIX of the option list first (`base := WithConfig(common...)`):
+				// it shares the backing array with the full list and must leave the other options alone
+				_ = WithConfig(opts[:1]...)
+			}
 			w.cfgs[n] = WithConfig(opts...)
 		}
 		w.cfgPlain[n] = len(opts) == 1
